@@ -151,9 +151,51 @@ def runLenient {β} : Prog CFloat β → List DrawRec → Except String (Except 
       else runLenient (k l) ds
   | .categorical _ _ _, _ => .error "model-draws-categorical-impl-did-not"
 
+/-- sentinel: `Composite::conjugate` indexes `ops[b]` with a sub-gate's local index; out of range is a panic, which
+the `Conj` type (errors only) cannot carry — the sentinel error is printed as `panic` by `stepAnswer` -/
+def conjPanic : Q1t.Tableau.GErr := .invalidNrBits 987654321 987654321
+
+mutual
+/-- `SimStep.conjOfTerm` with the index panic of `Composite::conjugate` (`ops[b]`) made visible -/
+partial def conjOfTerm18 (g : GateTerm Float) : Q1t.Tableau.Tab.Conj := fun ops =>
+  match g with
+  | .Kron g0 g1 =>
+      let n := Gate.nrBits g0 + Gate.nrBits g1
+      if ops.length ≠ n then .error (.invalidNrBits ops.length n) else
+      let n0 := Gate.nrBits g0
+      match conjOfTerm18 g0 (ops.take n0) with
+      | .error e => .error e
+      | .ok (f0, o0) =>
+        match conjOfTerm18 g1 (ops.drop n0) with
+        | .error e => .error e
+        | .ok (f1, o1) => .ok (f0 != f1, o0 ++ o1)
+  | .Composite _ n body =>
+      if ops.length ≠ n then .error (.invalidNrBits ops.length n) else conjOps18 body ops false
+  | .Loop _ iters _ n body =>
+      if ops.length ≠ n then .error (.invalidNrBits ops.length n) else
+      (List.range iters).foldl (fun acc _ =>
+        match acc with
+        | .error e => .error e
+        | .ok (f, o) => match conjOps18 body o false with
+          | .error e => .error e
+          | .ok (f', o') => .ok (f != f', o')) (.ok (false, ops))
+  | other => conjOfTerm other ops
+
+partial def conjOps18 : OpList Float → List Q1t.Tableau.P → Bool → Except Q1t.Tableau.GErr (Bool × List Q1t.Tableau.P)
+  | .nil, ops, f => .ok (f, ops)
+  | .cons g bits rest, ops, f =>
+      if bits.any (fun b => ops.length ≤ b) then .error conjPanic else       -- `ops[b]`
+      let gateOps := bits.map fun b => ops.getD b .I
+      match conjOfTerm18 g gateOps with
+      | .error e => .error e
+      | .ok (f', out) =>
+        let ops' := (bits.zip out).foldl (fun acc (b, p) => acc.set b p) ops
+        conjOps18 rest ops' (f != f')
+end
+
 /-- the stabilizer backend, reading over-long `peek_all` lists through the flat cell array -/
 def stabBF : Backend CFloat Float StabState :=
-  stabBackendFlat (⟨0.5, 0.0⟩ : CFloat) Q1t.Gen.phaseTable conjOfTerm
+  stabBackendFlat (⟨0.5, 0.0⟩ : CFloat) Q1t.Gen.phaseTable conjOfTerm18
 
 /-- does the operation place a gate on a repeated qubit? -/
 def hasDupQubits : COp Float → Bool
@@ -181,6 +223,7 @@ def stepAnswer (op : COp Float) (snap reg draws : List String) : String :=
       | some st =>
         match runLenient (execOp stabBF st reg op) ds with
         | .error msg => s!"draw-mismatch {msg}"
+        | .ok (.error (.err (.invalidNrBits 987654321 987654321)), _) => "panic"
         | .ok (.error f, _) => showFail f
         | .ok (.ok (st', reg'), rest) =>
           if !rest.isEmpty then "draw-mismatch impl-made-more-draws-than-model"
@@ -209,7 +252,7 @@ def handle (line : String) : String :=
     | some (nq, nc, cs) =>
       let (circ, results) := buildAll nq nc cs
       match sizes.head?, rest with
-      | some "build", [] => " ; ".intercalate results
+      | some "build", [] => " ; ".intercalate results ++ s!" | nops {circ.ops.length}"
       | some "oq", [] => showCls (openQasmCls circ)
       | some "cq", [] => showCls (cQasmCls circ)
       | some "latex", [] => showLatex (latexOutcome circ)
@@ -294,10 +337,13 @@ def execTag (what : String) (circ : Circ Float) (shots : Nat) (i : Nat) (reexec 
 
 def specPair (circ : Circ Float) (fs : List (List String)) : String :=
   match fs with
-  | [[shots], v, rv, s, rs] =>
+  | [shots] :: v :: rv :: s :: rs :: more =>
     match shots.toNat?, parseRunOut v, parseRunOut rv, parseRunOut s, parseRunOut rs with
     | some shots, some v, some rv, some s, some rs =>
-      let runs := [("vector", v), ("vector-reexecute", rv), ("stabilizer", s), ("stabilizer-reexecute", rs)]
+      -- `v2`: execute_with(vector) once more on the same object, after all the other runs
+      let v2 := (more.head?.bind parseRunOut).getD ⟨"skipped", 0, ""⟩
+      let runs := [("vector", v), ("vector-reexecute", rv), ("stabilizer", s), ("stabilizer-reexecute", rs),
+        ("vector-again", v2)]
       match runs.find? (fun r => r.2.kind = "panic") with
       | some (name, r) =>
         s!"fail {execTag "exec-panic" circ shots r.at_ (name.endsWith "reexecute")} {name} panics at operation {r.at_}"
@@ -306,7 +352,9 @@ def specPair (circ : Circ Float) (fs : List (List String)) : String :=
         -- legitimately refused by the stabilizer representation
         let same (a b : RunOut) : Bool := a.kind = b.kind && a.ctor = b.ctor && (a.kind = "ok" || a.at_ = b.at_)
         let stabRefuses := !isClifford circ && s.kind = "err" && s.ctor = "notAStabilizer"
-        if !stabRefuses && !same v s then
+        if v2.kind ≠ "skipped" && !same v v2 then
+          s!"fail execute-not-fresh a second execute on the same object ends differently: first={v.kind} {v.ctor} again={v2.kind} {v2.ctor}"
+        else if !stabRefuses && !same v s then
           let i := if v.kind = "ok" then s.at_ else if s.kind = "ok" then v.at_ else min v.at_ s.at_
           s!"fail {execTag "reps-diverge" circ shots i} vector={v.kind} {v.ctor} stabilizer={s.kind} {s.ctor}"
         else if !stabRefuses && !(!isClifford circ && rs.kind = "err" && rs.ctor = "notAStabilizer") &&
@@ -337,8 +385,11 @@ def specCheck (line : String) : String :=
         let (circ, expected) := buildRef nq nc cs
         match sizes.head? with
         | some "build" =>
-          let got := splitSemis impl
-          if got.any (·.startsWith "panic") then "fail builder-panic a building call panicked"
+          let parts := impl.splitOn " | nops "
+          let got := splitSemis (parts.headD "")
+          if parts.length ≠ 2 || (parts.getD 1 "").trimAscii.toString ≠ toString circ.ops.length then
+            s!"fail builder-wrong-ops expected {circ.ops.length} operations"
+          else if got.any (·.startsWith "panic") then "fail builder-panic a building call panicked"
           else if got.any (fun g => g.endsWith "CHANGED") then "fail builder-not-atomic a failed call changed the circuit"
           else if got ≠ expected then s!"fail builder-wrong-result expected {" ; ".intercalate expected}"
           else "ok"
